@@ -297,6 +297,44 @@ def first_ub_line(txt):
     return "ub"
 
 
+def uncovered_pub_fns():
+    """pub fn names of stun-rs/src (outside test modules) that the C19 API table never mentions"""
+    import re
+    table = ""
+    for f in ("c19.rs",):
+        try:
+            table += open(os.path.join(HARNESS, "src", "props", f)).read()
+        except Exception:
+            pass
+    try:
+        table += open(os.path.join(HARNESS, "src", "bridge.rs")).read()
+    except Exception:
+        pass
+    names = {}
+    for root, _d, files in os.walk("/repo/stun-rs/src"):
+        for fn in files:
+            if not fn.endswith(".rs"):
+                continue
+            path = os.path.join(root, fn)
+            try:
+                text = open(path).read()
+            except Exception:
+                continue
+            text = text.split("#[cfg(test)]")[0]
+            for m in re.finditer(r"^\s*pub fn ([a-z_0-9]+)", text, re.M):
+                names.setdefault(m.group(1), os.path.relpath(path, "/repo"))
+    internal = {"decode", "encode", "post_encode", "register", "check_buffer_boundaries", "fill_padding_value", "padding",
+                "sha256", "opaque_string_prepapre", "opaque_string_enforce", "raw_value", "raw_value_mut", "context",
+                "decoded_message", "encoded_message", "pos", "hmac_sha"}
+    out = []
+    for n, where in sorted(names.items()):
+        if n in internal:
+            continue
+        if not re.search(r"[.:]%s\b" % re.escape(n), table):
+            out.append("%s (%s)" % (n, where))
+    return out
+
+
 def finish(prop, tier, seed, meta, results, crashes, stalls, outdirs, build_s, t0, profiles):
     findings, _fixed = load_known()
     known_sigs = {f["sig"]: f for f in findings if f.get("property") == prop}
@@ -410,6 +448,8 @@ def finish(prop, tier, seed, meta, results, crashes, stalls, outdirs, build_s, t
     }
     if meta.get("exhaustive_all") and exhaustive and all(exhaustive.values()):
         coverage["exhaustive"] = True
+    if prop == "C19":
+        coverage["uncovered_pub_fns"] = uncovered_pub_fns()
     if inconclusive:
         coverage["inconclusive"] = inconclusive
     ev = {
